@@ -62,6 +62,11 @@ def gen_case(rng, pi_method=None, size="small", **kw):
         alphas = rng.sample([0.5, 0.6, 0.7], rng.choice([1, 2])) if pi == "nonparametric" else rng.sample([0.5, 0.7, 0.9], 2)
         params = {"robust": rng.random() < 0.3} if pi == "nonparametric" else {}
         features = rng.choice([[], [], ["x1"], ["x1", "x2"]])
+    if features and rng.random() < 0.6:
+        # an outstanding unit far outside the covariate range of the reporting ones: the extrapolated lower / median / upper lines cross
+        out_ids = [u for u, r in e.roles.items() if r in ("partial", "zero-percent", "missing", "no-expected-vote")]
+        for u in rng.sample(out_ids, min(2, len(out_ids))):
+            e.pre.loc[e.pre["geographic_unit_fips"] == u, "x1"] = rng.choice([6.0, -6.0, 8.0])
     tf_lo, tf_hi = 0.5, 2.0
     if rng.random() < 0.3:
         # 0 is a valid lower limit ("keep every unit that has votes"), as an int or a float
